@@ -28,6 +28,10 @@ for sid in ids:
         else:
             res[prop] = {"caught": False, "wall_s": round(time.time() - t)}
         print(sid, prop, res[prop], flush=True)
+    old = meta.get("detected_by") or {}
+    for prop, r in list(res.items()):
+        if isinstance(r, str) and r.startswith("patch no longer applies") and isinstance(old.get(prop), dict):
+            res[prop] = old[prop]          # keep the result recorded on the last tree the patch applied to
     meta["detected_by"] = res
     meta["matrix_run_at_repo"] = subprocess.run(["git", "-C", "/repo", "log", "--format=%h", "-1"], stdout=subprocess.PIPE).stdout.decode().strip()
     json.dump(meta, open(mp, "w"), indent=1)
